@@ -195,6 +195,18 @@ pub fn run(op: &str, a: &[String]) -> Vec<String> {
                 format!("secs={}", na - nb),
                 format!("valid_now={}", nb <= now && now <= na),
                 format!("pinned={pinned}"),
+                // what was requested, typed by the standard library's address parser (not by rcgen)
+                {
+                    let want: Vec<String> = sans
+                        .iter()
+                        .map(|n| match n.parse::<std::net::IpAddr>() {
+                            Ok(std::net::IpAddr::V4(a)) => format!("ip:{}", hex(&a.octets())),
+                            Ok(std::net::IpAddr::V6(a)) => format!("ip:{}", hex(&a.octets())),
+                            Err(_) => format!("dns:{n}"),
+                        })
+                        .collect();
+                    format!("want={}", if want.is_empty() { "-".to_string() } else { want.join(",") })
+                },
             ]
         }
         // pem.rt n seed | chain_equal key_equal single_equal
